@@ -1,9 +1,11 @@
 use crate::engine::Property;
 
 pub mod c02;
+pub mod c06;
 
 pub fn all() -> Vec<&'static dyn Property> {
     vec![
         &c02::C02,
+        &c06::C06,
     ]
 }
